@@ -729,6 +729,31 @@ def hook_c14(binp, tier, seed, wd):
     return extra, viols
 
 
+def liveness(cfgname, wd, expect_violation=None):
+    """TLC liveness checking of spec/MilkyWayLive.tla on a CLOSED bounded model (no state constraint)"""
+    rc, out, wall = tlc(os.path.join(SPEC, "MilkyWayLive.tla"), os.path.join(MC_DIR, cfgname + ".cfg"), wd, workers=4, timeout=1200, xmx="8g")
+    m = STAT_RE.search(out)
+    if expect_violation:
+        if f"Temporal property {expect_violation} was violated" not in out:
+            raise ToolError(f"liveness sanity {cfgname}: {expect_violation} was expected to fail without operator fairness\n" + out[-1200:])
+    elif "No error has been found" not in out or not m:
+        raise ToolError(f"liveness {cfgname}: the specification does not satisfy its liveness properties\n" + out[-2000:])
+    log(f"[live] {cfgname}: {'violated as expected (sanity)' if expect_violation else 'temporal properties hold'} ({wall:.1f}s)")
+    return {"config": cfgname, "states": int(m.group(2)) if m else 0, "expected_violation": expect_violation or ""}
+
+
+def hook_c06(binp, tier, seed, wd):
+    # beyond the listed (safety) property: with a live operator every Submitted batch is eventually Received and
+    # every request eventually withdrawn; without operator fairness the same property fails (sanity)
+    extra = {"liveness": [liveness("LIVE_flow", wd), liveness("LIVE_flow_lazy", wd, "L_Received")]}
+    return extra, []
+
+
+def hook_c07(binp, tier, seed, wd):
+    extra = {"liveness": [liveness("LIVE_ibc", wd)]}
+    return extra, []
+
+
 def hook_c16(binp, tier, seed, wd):
     """entry points outside the state-machine traces: migrate (all version strings / names / paths on legacy stores),
     instantiate / UpdateConfig / validator messages of the TLC-enumerated configuration space, the query sweeps - a
@@ -752,7 +777,8 @@ def hook_c16(binp, tier, seed, wd):
     return extra, viols
 
 
-HOOKS = {"C04": hook_c04, "C19": hook_c19, "C09": hook_c09, "C17": hook_c17, "C18": hook_c18, "C14": hook_c14, "C16": hook_c16}
+HOOKS = {"C04": hook_c04, "C19": hook_c19, "C09": hook_c09, "C17": hook_c17, "C18": hook_c18, "C14": hook_c14, "C16": hook_c16,
+         "C06": hook_c06, "C07": hook_c07}
 
 
 def run_property(prop, tier, seed):
